@@ -16,6 +16,8 @@
    binding (checks/c40.py: every loader-strategy / column-option assignment must produce this result and this graph;
    checks/c41.py: ORM result = this result = rows of a Core select built by the harness from Table objects).
 
+   Part 3 (INIT InitM2M; C41): a many-to-many pair I <-> O over an association relation, see below.
+
    Part 2 (INIT InitPart2 = InitHierGrid \/ InitHier; C42).  A class hierarchy (root A, subclasses B1, B2 of A, C1 below B1, C2 below B1 or B2,
    D1 below C1: depth <= 3; any parent-closed subset), mapped single-table, joined-table or mixed (the mapping kind is carried for the binding only: the MEANING of a
    query does not depend on it, nor on any polymorphic loading option - which is what C42 states), each class adding one attribute; rows name their class by discriminator; a holder table H
@@ -188,6 +190,8 @@ Eval(qq) == LET s == Slice(Sorted(qq), qq.lim, qq.off) IN
 Uniq(s) == SelectSeq([i \in 1..Len(s) |-> IF \E j \in 1..(i - 1) : s[j] = s[i] THEN <<>> ELSE <<s[i]>>], LAMBDA e : e # <<>>)
 UniqRows(s) == LET u == Uniq(s) IN [i \in 1..Len(u) |-> u[i][1]]
 ToSet(s) == {s[i] : i \in 1..Len(s)}
+\* a finite set of integer tuples as a sequence in lexicographic order
+SetToSeq2(S) == [m \in 1..Cardinality(S) |-> CHOOSE t \in S : Cardinality({u \in S : Lex(u, t)}) = m - 1]
 
 Case == [k |-> k, ds |-> ds, q |-> q, rows |-> Eval(q), uniq |-> UniqRows(Eval(q)), count |-> Len(Eval(q)), exists |-> Len(Eval(q)) > 0,
          ordered |-> q.ord # "none",
@@ -420,4 +424,73 @@ HViaOK ==
   /\ {t[1] : t \in HSet([q EXCEPT !.via = "aot"])} = {t[1] : t \in HSet([q EXCEPT !.via = "jot"])}
   /\ \A h \in Holders : \A i \in HIds : (\E m \in 1..Len(out.hitems[h]) : out.hitems[h][m] = i) <=> ds.rows[i].hid = h
 HTheorems == HUnionOfSubclasses /\ HMostSpecific /\ HLimitIsSlice /\ HViaOK
+
+\* ================================================================================================================================
+\* Part 3: a many-to-many pair (C41).  INIT InitM2M.
+\* ds = [ni, no, ix, ox, link]   two entity sets  I(id, x)  and  O(id, x)  and an association RELATION  link \subseteq I \X O  (table
+\*      assoc(iid, oid)); mapped  I.orders = relationship(O, secondary = assoc),  O.items = relationship(I, secondary = assoc)  and the
+\*      scalar views  I.one / O.one  (same join, uselist = False) for has() and != None.
+\* q  = [root, f, v, ja, ord]    root "I" | "O" (T = the other class, rel = the root's collection of T)
+\*      f   any        rel.any()                                  anyc v    rel.any(T.x == v)            nanyc v   ~rel.any(T.x == v)
+\*          nest v     rel.any(T.rel.any(Root.id == v))           NESTED any() across both directions of the same many-to-many:
+\*                                                                 the roots that share a partner with root #v
+\*          nestc v    rel.any(T.rel.any(Root.x == v))            cont v    rel.contains(<T #v>)        ncont v   ~rel.contains(<T #v>)
+\*          has v      one.has(T.x == v)                          nnone     one != None
+\*      ja  the statement ALSO joins the association table explicitly:  select(Root, assoc.<T fk>).join(assoc, assoc.<root fk> == Root.id)
+\*          - one row per link of a qualifying root (the enclosing FROM then already contains the bare association table)
+\*      ord "id" | "idd"
+MForms == {"any", "anyc", "nanyc", "nest", "nestc", "cont", "ncont", "has", "nnone"}
+MOther(r) == IF r = "I" THEN "O" ELSE "I"
+MIds(r) == IF r = "I" THEN 1..ds.ni ELSE 1..ds.no
+MAttr(r, i) == IF r = "I" THEN ds.ix[i] ELSE ds.ox[i]
+\* the partners of row i of class r
+MLinked(r, i) == IF r = "I" THEN {o \in 1..ds.no : <<i, o>> \in ds.link} ELSE {j \in 1..ds.ni : <<j, i>> \in ds.link}
+MPF(qq, i) ==
+  LET r == qq.root  t == MOther(qq.root)  v == qq.v  f == qq.f IN
+  CASE f \in {"any", "nnone"} -> MLinked(r, i) # {}
+    [] f \in {"anyc", "has"} -> \E j \in MLinked(r, i) : Eq3(MAttr(t, j), v) = "T"
+    [] f = "nanyc" -> ~\E j \in MLinked(r, i) : Eq3(MAttr(t, j), v) = "T"
+    [] f = "nest" -> \E j \in MLinked(r, i) : v \in MLinked(t, j)
+    [] f = "nestc" -> \E j \in MLinked(r, i) : \E m \in MLinked(t, j) : Eq3(MAttr(r, m), v) = "T"
+    [] f = "cont" -> v \in MLinked(r, i)
+    [] f = "ncont" -> v \notin MLinked(r, i)
+MItems(qq) == IF qq.ja THEN UNION {{<<i, j>> : j \in MLinked(qq.root, i)} : i \in {i \in MIds(qq.root) : MPF(qq, i)}}
+              ELSE {<<i>> : i \in {i \in MIds(qq.root) : MPF(qq, i)}}
+MEval(qq) == LET I == MItems(qq)
+                 Ky(t) == IF qq.ord = "id" THEN t ELSE Neg(t) IN
+             [m \in 1..Cardinality(I) |-> CHOOSE t \in I : Cardinality({u \in I : Lex(Ky(u), Ky(t))}) = m - 1]
+MNorm(r) == [r EXCEPT !.v = IF r.f \in {"any", "nnone"} THEN 1 ELSE r.v, !.ja = r.ja /\ r.f # "cont"]
+MCase == [ds |-> [ni |-> ds.ni, no |-> ds.no, ix |-> ds.ix, ox |-> ds.ox, link |-> SetToSeq2(ds.link)], q |-> q, rows |-> MEval(q),
+          uniq |-> UniqRows([i \in 1..Len(MEval(q)) |-> <<MEval(q)[i][1]>>]), count |-> Len(MEval(q))]
+RandomMDs == \E ni \in {Pick(Sizes(NP))} : \E no \in {Pick(Sizes(NC))} :
+               ds = [ni |-> ni, no |-> no, ix |-> RandomElement([1..ni -> 0..MaxV]), ox |-> RandomElement([1..no -> 0..MaxV]),
+                     link |-> RandomElement(SUBSET ((1..ni) \X (1..no)))]
+RandomMQ(kk) == MNorm([root |-> RandomElement({"I", "O"}), f |-> RandomElement(MForms), v |-> RandomElement(1..Max2(MaxV, 2)),
+                       ja |-> RandomElement(BOOLEAN), ord |-> RandomElement({"id", "idd"})])
+\* every form x both roots x with / without the explicit association join, K random data sets each, plus NQ random pairs
+InitM2M == /\ \/ /\ k \in 1..K
+                 /\ q \in {MNorm(r) : r \in [root : {"I", "O"}, f : MForms, v : 1..2, ja : BOOLEAN, ord : {"id"}]}
+                 /\ RandomMDs
+              \/ /\ k \in (K + 1)..(K + NQ) /\ RandomMDs /\ q = RandomMQ(k)
+           /\ out = MCase /\ PrintT(ToJson(out))
+\* ---- theorems of part 3
+MRoots(qq) == {i \in MIds(qq.root) : MPF(qq, i)}
+MTheorems ==
+  LET b == [q EXCEPT !.ja = FALSE]  r == q.root  t == MOther(q.root) IN
+  \* any() <=> a link exists; any(crit) is a subset; ~any(crit) its complement; has / != None agree with any
+  /\ MRoots([b EXCEPT !.f = "any"]) = {i \in MIds(r) : \E pr \in ds.link : (IF r = "I" THEN pr[1] ELSE pr[2]) = i}
+  /\ \A v \in 1..2 : /\ MRoots([b EXCEPT !.f = "anyc", !.v = v]) \subseteq MRoots([b EXCEPT !.f = "any"])
+                     /\ MRoots([b EXCEPT !.f = "nanyc", !.v = v]) = MIds(r) \ MRoots([b EXCEPT !.f = "anyc", !.v = v])
+                     /\ MRoots([b EXCEPT !.f = "has", !.v = v]) = MRoots([b EXCEPT !.f = "anyc", !.v = v])
+                     \* nested any(): the roots sharing a partner with #v: contains #v itself iff #v has a partner; symmetric
+                     /\ (v \in MIds(r) => ((v \in MRoots([b EXCEPT !.f = "nest", !.v = v])) <=> (MLinked(r, v) # {})))
+                     /\ \A i \in MIds(r) : (i \in MRoots([b EXCEPT !.f = "nest", !.v = v]) /\ v \in MIds(r))
+                                            => v \in MRoots([b EXCEPT !.f = "nest", !.v = i])
+                     /\ MRoots([b EXCEPT !.f = "nest", !.v = v]) \subseteq MRoots([b EXCEPT !.f = "any"])
+                     /\ MRoots([b EXCEPT !.f = "cont", !.v = v]) \cup MRoots([b EXCEPT !.f = "ncont", !.v = v]) = MIds(r)
+                     /\ MRoots([b EXCEPT !.f = "cont", !.v = v]) \cap MRoots([b EXCEPT !.f = "ncont", !.v = v]) = {}
+  \* the explicit association join multiplies each qualifying root by its links and never adds or removes a root that has a link
+  /\ {tt[1] : tt \in MItems([q EXCEPT !.ja = TRUE])} = {i \in MRoots(b) : MLinked(r, i) # {}}
+  /\ Cardinality(MItems([q EXCEPT !.ja = TRUE])) = Cardinality({pr \in ds.link : (IF r = "I" THEN pr[1] ELSE pr[2]) \in MRoots(b)})
+  /\ out.count = Len(out.rows)
 =============================================================================
